@@ -13,6 +13,7 @@ The arrival order at the node (the schedule of the multiConsumer goroutines) is 
 quantified INPUT of every theorem below: `arrivals : List (parent × message)`.
 -/
 import Kap.Proofs.C12Union
+import Kap.Proofs.C12UnionSorted
 import Kap.Proofs.C12Join
 import Kap.Proofs.C12PairK
 namespace Kap.Props.C12
@@ -110,7 +111,10 @@ theorem union_fuel_enough (drain : Bool) (s : UState (WCQ UMsg)) : (Union.emitRe
 
 /-- Full-strength statement of the remaining union clause (stated, NOT yet proved; checked on every run by
 the spec oracle on the implementation's output and by correspondence): when every parent delivers in time
-order, the output is in non-decreasing time order overall — for every interleaving. -/
+order, the output is in non-decreasing time order overall — for every interleaving. What is missing is the
+invariant "every emitted time ≤ the bound of every source (its head time, or its remembered low mark when
+empty), and a low mark is the time of an earlier message of that parent"; Proofs/C12UnionSorted.lean has the
+first step (`markLoop_false`: the mark is the minimum of those bounds). -/
 def union_sorted_stmt : Prop :=
   ∀ (rename : String) (n : Nat) (arrivals : List (Nat × UMsg)), (∀ a ∈ arrivals, a.1 < n) →
     parentsOrdered n arrivals → unionSorted (Union.run rename n arrivals : UState (WCQ UMsg) × _).2
